@@ -390,6 +390,9 @@ def make(spec: dict):
     if kind == "resnet":
         from agilerl.modules.resnet import EvolvableResNet
         return EvolvableResNet(**cfg)
+    if kind == "gpt":
+        from agilerl.modules.gpt import EvolvableGPT
+        return EvolvableGPT(**cfg)
     if kind == "multi":
         from agilerl.modules.multi_input import EvolvableMultiInput
         return EvolvableMultiInput(observation_space=_space(cfg.pop("obs")), **cfg)
@@ -420,6 +423,8 @@ def obs_of(spec: dict, m):
         return spaces.Box(0, 1, (c, cfg["depth"], h, w), np.float32)
     if kind == "lstm":
         return spaces.Box(-1, 1, (3, cfg["input_size"]), np.float32)
+    if kind == "gpt":
+        return spaces.MultiDiscrete([cfg["vocab_size"]] * min(4, cfg["block_size"]))     # token ids
     return _space(cfg["obs"])
 
 
@@ -491,7 +496,7 @@ def train_steps(spec: dict, m, seed: int, steps: int) -> None:
 
 
 def snapshot(m):
-    P = {k: v.detach().clone() for k, v in m.named_parameters()}
+    P = {k: v.detach().clone() for k, v in m.named_parameters(remove_duplicate=False)}     # tied names listed too
     B = {k: v.detach().clone() for k, v in m.named_buffers()}
     return P, B
 
@@ -646,7 +651,7 @@ def gen_kwargs(rng: random.Random, spec: dict, m, name: str):
         params = inspect.signature(meth).parameters
     except (AttributeError, ValueError, TypeError):
         return None
-    must = spec["kind"] == "resnet" or (spec["kind"] in NET_CLASSES and spec["cfg"].get("encoder_cls") == "ResNet")
+    must = spec["kind"] in ("resnet", "gpt") or (spec["kind"] in NET_CLASSES and spec["cfg"].get("encoder_cls") == "ResNet")
     if not must and rng.random() < 0.45:
         return None
     kw = {}
@@ -667,7 +672,7 @@ def gen_kwargs(rng: random.Random, spec: dict, m, name: str):
 
 
 HYPER_ATTRS = ("hidden_size", "channel_size", "kernel_size", "stride_size", "num_layers", "num_blocks",
-               "latent_dim", "scale_factor")
+               "latent_dim", "scale_factor", "n_layer", "dim_feedfwd")
 
 
 def hyper(m) -> dict:
@@ -717,6 +722,37 @@ def locality_problems(H0: dict, H1: dict, op: str, name: str) -> list:
         if H0[n] != H1[n]:
             bad.append(f"{name} silently changed the architecture of {n or '<root>'}: {H0[n]} -> {H1[n]}")
     return bad
+
+
+ACTIVATIONS = ["Tanh", "ReLU", "ELU", "Softsign", "Sigmoid", "Softplus", "LeakyReLU", "PReLU", "GELU"]
+
+
+def tie_groups(m) -> set:
+    """groups of parameter names that share storage (weight tying, e.g. GPT's wte / lm_head)"""
+    by_ptr = {}
+    for n, p in m.named_parameters(remove_duplicate=False):
+        if p.numel():
+            by_ptr.setdefault((p.data_ptr(), tuple(p.shape)), []).append(n)
+    return {frozenset(v) for v in by_ptr.values() if len(v) > 1}
+
+
+def tie_problems(T0: set, m, what: str) -> list:
+    T1 = tie_groups(m)
+    names = {n for n, _ in m.named_parameters(remove_duplicate=False)}
+    bad = []
+    for g in T0:
+        if g <= names and not any(g <= h for h in T1):
+            bad.append(f"{what}: parameters {sorted(g)} shared storage before and no longer do (weight tying lost)")
+    return bad
+
+
+def perturb(m, seed: int) -> None:
+    """the weights move again after every step (training goes on between mutations): every *named* parameter is
+    nudged in place, so tensors that are tied move together and tensors that were silently untied drift apart"""
+    g = torch.Generator().manual_seed(seed)
+    with torch.no_grad():
+        for _, p in m.named_parameters(remove_duplicate=False):
+            p.add_(torch.randn(p.shape, generator=g) * 0.02)
 
 
 class _HookFault(RuntimeError):
@@ -807,8 +843,8 @@ def rebuild_problems(m, label: str) -> list:
         return [] if "must be an integer" in str(e) else [f"{label}: cls(**init_dict) raised AssertionError: {e}"]
     except Exception as e:
         return [f"{label}: cls(**init_dict) raised {type(e).__name__}: {e}"]
-    live = {k: tuple(v.shape) for k, v in list(m.named_parameters()) + list(m.named_buffers())}
-    new = {k: tuple(v.shape) for k, v in list(fresh.named_parameters()) + list(fresh.named_buffers())}
+    live = {k: tuple(v.shape) for k, v in list(m.named_parameters(remove_duplicate=False)) + list(m.named_buffers())}
+    new = {k: tuple(v.shape) for k, v in list(fresh.named_parameters(remove_duplicate=False)) + list(fresh.named_buffers())}
     if live != new:
         d = [f"{k}: live {live.get(k)} vs rebuilt {new.get(k)}" for k in sorted(set(live) | set(new))
              if live.get(k) != new.get(k)]
@@ -889,12 +925,26 @@ def _run_chain(chk: Check, case: dict, res: dict):
             mods0 = nested_mods(net)
             H0 = hyper(net)
             C0 = config_view(net)
+            T0 = tie_groups(net)
             np.random.seed(st["seed"] % (2 ** 32))
             torch.manual_seed(st["seed"])
             try:
                 if op == "recreate":
                     net.recreate_network()
                     mode, name = "full", "recreate_network"
+                elif op == "act":
+                    # an activation mutation is a mutation too (Mutations.activation_mutate calls exactly this)
+                    mode, name = "full", "change_activation"
+                    out_flag = bool(st.get("output")) and spec["kind"] not in NET_CLASSES
+                    try:
+                        if "output" in inspect.signature(net.change_activation).parameters:
+                            net.change_activation(st["activation"], output=out_flag)
+                        else:
+                            net.change_activation(st["activation"])
+                    except NotImplementedError:
+                        # "whether a network can change its activation is only known after trying"
+                        # (Mutations.activation_mutation); whatever was changed must still be consistent
+                        res["tags"].append("act-unsupported")
                 else:
                     if ti == 0:
                         name, kw = st["m"], (st.get("kw") or {})
@@ -963,10 +1013,15 @@ def _run_chain(chk: Check, case: dict, res: dict):
                 return res
             P1, B1 = snapshot(net)
             H1 = hyper(net)
-            loc = locality_problems(H0, H1, op, name)
+            loc = locality_problems(H0, H1, "recreate" if op == "act" else op, name)
             res["problems"] += [f"{label}: {t}" for t in loc]
             # constructor options and public flags are not architecture: no mutation may change them
-            res["problems"] += [f"{label}: {t}" for t in config_problems(C0, config_view(net), name)]
+            C1 = config_view(net)
+            if op == "act":                             # ... except the activation an activation mutation sets
+                C0 = {k: v for k, v in C0.items() if "activation" not in k.rsplit(".", 1)[-1]}
+                C1 = {k: v for k, v in C1.items() if "activation" not in k.rsplit(".", 1)[-1]}
+            res["problems"] += [f"{label}: {t}" for t in config_problems(C0, C1, name)]
+            res["problems"] += tie_problems(T0, net, label)
             # configuration and live network stay in step (also after a failed call): model vs. implementation
             rb = rebuild_problems(net, label)
             res["problems"] += rb
@@ -982,7 +1037,7 @@ def _run_chain(chk: Check, case: dict, res: dict):
                                            f"expected {ans}")
             if H0 == H1:
                 res["tags"].append("hyper-unchanged")
-                if not (same_arch(P0, P1) and same_arch(B0, B1)):
+                if op != "act" and not (same_arch(P0, P1) and same_arch(B0, B1)):
                     res["problems"].append(f"{label}: no architecture hyperparameter changed, but parameter "
                                            f"names/shapes did: " + "; ".join(
                                                f"{k} {list(P0[k].shape)}->{list(P1[k].shape) if k in P1 else 'gone'}"
@@ -996,7 +1051,9 @@ def _run_chain(chk: Check, case: dict, res: dict):
             res["diffs"] += [f"{label}: {t}" for t in d]
             res["hits"] |= hits
             res["tags"] += tags + [f"op-{op}", f"mode-{mode}"] + (["second-net"] if ti else [])
-            if same_arch(P0, P1) and same_arch(B0, B1):
+            if op == "act":
+                res["tags"].append("act-" + st["activation"])
+            elif same_arch(P0, P1) and same_arch(B0, B1):
                 res["tags"].append("arch-unchanged")
                 y1 = forward(spec, net, x, seed)
                 if not outputs_differ(y0, y1) and outputs_differ(y0t, forward(spec, net, x, seed, train=True)):
@@ -1010,8 +1067,9 @@ def _run_chain(chk: Check, case: dict, res: dict):
                         res["problems"].append(f"{label}: architecture unchanged but module(x) changed")
             else:
                 res["tags"].append("arch-changed")
+            perturb(net, st.get("seed", si) + 17)       # training goes on; then the clone oracle
             if not rb:
-                p, d, _ = check_clone(chk, spec, net, x, seed + si, label + " (then clone)", light=True)
+                p, d, _ = check_clone(chk, spec, net, x, seed + si, label + " (then train, clone)", light=True)
                 res["problems"] += p
     p, d, _ = check_clone(chk, spec, m, x, seed + 99, "final")
     res["problems"] += p
@@ -1021,7 +1079,7 @@ def _run_chain(chk: Check, case: dict, res: dict):
 
 # ----------------------------------------------------------------------------- case generation
 KINDS = ["mlp", "cnn", "q", "lstm", "multi", "sto", "simba", "resnet", "rainbow", "cnn3d", "cq", "det", "val",
-         "mlp", "cnn", "multi", "q", "sto"]
+         "gpt", "mlp", "cnn", "multi", "q", "sto", "rainbow"]
 
 
 def gen_spec(rng: random.Random, kind: str | None = None, fam: str | None = None) -> dict:
@@ -1055,6 +1113,9 @@ def gen_spec(rng: random.Random, kind: str | None = None, fam: str | None = None
         cfg = dict(input_shape=[rng.randint(1, 3), 8, 8], num_outputs=rng.randint(2, 4), channel_size=rng.choice([3, 4, 6]),
                    kernel_size=rng.choice([2, 3]), stride_size=1, num_blocks=rng.randint(1, 2), scale_factor=2,
                    min_blocks=1, max_blocks=3, min_channel_size=2, max_channel_size=64 if big else 8)
+    elif kind == "gpt":
+        cfg = dict(n_layer=rng.randint(1, 2), vocab_size=11, n_embd=8, n_head=2, dim_feedfwd=rng.choice([64, 96]),
+                   block_size=8, dropout=0.0, min_layers=1, max_layers=2 if not big else 3, bias=rng.random() < 0.5)
     elif kind == "multi":
         members = {"img": ["img", [2, 10, 10]], "vec": ["box", [3]]}
         if rng.random() < 0.4:
@@ -1140,11 +1201,12 @@ OPTION_VALUES = {
     "output_activation": ["Tanh", "Sigmoid", "Softsign", "ELU", "Softmax", "ReLU"],
     "noise_std": [0.25],
     "action_std_init": [0.5, -0.5],
-    "name": ["zz"],
+    "name": ["zz", "vision"],
     "random_seed": [7],
 }
 # structural / already generated / not an option of the computed function
-OPTION_SKIP = {"self", "device", "latent_dim", "encoder_cls", "encoder_config", "head_config", "cnn_config", "mlp_config",
+OPTION_SKIP = {"self", "device", "n_layer", "vocab_size", "n_embd", "n_head", "dim_feedfwd", "block_size",
+               "layer_norm_eps", "latent_dim", "encoder_cls", "encoder_config", "head_config", "cnn_config", "mlp_config",
                "lstm_config", "init_dicts", "n_agents", "simba", "recurrent", "num_atoms", "sample_input", "block_type",
                "num_layers", "scale_factor", "vector_space_mlp", "support", "observation_space", "action_space",
                "num_inputs", "num_outputs", "input_shape", "input_size", "hidden_size", "channel_size", "kernel_size",
@@ -1154,17 +1216,18 @@ OPTION_SKIP = {"self", "device", "latent_dim", "encoder_cls", "encoder_config", 
 def _module_class(name: str):
     import importlib
     mod = {"EvolvableMLP": "mlp", "EvolvableCNN": "cnn", "EvolvableLSTM": "lstm", "EvolvableSimBa": "simba",
-           "EvolvableResNet": "resnet", "EvolvableMultiInput": "multi_input"}[name]
+           "EvolvableResNet": "resnet", "EvolvableMultiInput": "multi_input", "EvolvableGPT": "gpt"}[name]
     return getattr(importlib.import_module("agilerl.modules." + mod), name)
 
 
-def _sweep_into(rng: random.Random, cls, cfg: dict, nested: bool, p: float, stats: dict) -> None:
+def _sweep_into(rng: random.Random, cls, cfg: dict, nested: bool, p: float, stats: dict,
+                own_name: bool = False) -> None:
     params = inspect.signature(cls.__init__).parameters
     eligible = []
     for n, prm in params.items():
         if n in OPTION_SKIP or n.startswith(("min_", "max_")) or prm.default is inspect._empty:
             continue
-        if nested and n == "name":
+        if nested and n == "name" and not own_name:
             continue                                  # the owning network passes the name itself
         if n in OPTION_VALUES:
             eligible.append((n, OPTION_VALUES[n]))
@@ -1187,13 +1250,16 @@ def sweep_options(rng: random.Random, spec: dict, p: float = 0.3) -> dict:
     kind, cfg = spec["kind"], spec["cfg"]
     stats = {"swept": set(), "unswept": set()}
     mods = {"mlp": "EvolvableMLP", "cnn": "EvolvableCNN", "cnn3d": "EvolvableCNN", "lstm": "EvolvableLSTM",
-            "simba": "EvolvableSimBa", "resnet": "EvolvableResNet", "multi": "EvolvableMultiInput"}
+            "simba": "EvolvableSimBa", "resnet": "EvolvableResNet", "multi": "EvolvableMultiInput", "gpt": "EvolvableGPT"}
 
     def multi_nested(c):
         if isinstance(c.get("cnn_config"), dict):
-            _sweep_into(rng, _module_class("EvolvableCNN"), c["cnn_config"], True, p, stats)
+            # extractors of a multi-input net may carry their own name (default: the observation key)
+            _sweep_into(rng, _module_class("EvolvableCNN"), c["cnn_config"], True, p, stats, own_name=True)
         if isinstance(c.get("mlp_config"), dict):
-            _sweep_into(rng, _module_class("EvolvableMLP"), c["mlp_config"], True, p, stats)
+            _sweep_into(rng, _module_class("EvolvableMLP"), c["mlp_config"], True, p, stats, own_name=True)
+        if isinstance(c.get("lstm_config"), dict):
+            _sweep_into(rng, _module_class("EvolvableLSTM"), c["lstm_config"], True, p, stats, own_name=True)
 
     if kind in mods:
         _sweep_into(rng, _module_class(mods[kind]), cfg, False, p, stats)
@@ -1225,6 +1291,11 @@ def sweep_options(rng: random.Random, spec: dict, p: float = 0.3) -> dict:
     spec["swept"] = sorted(stats["swept"])
     spec["unswept"] = sorted(stats["unswept"])
     return spec
+
+
+def act_step(rng: random.Random) -> dict:
+    return {"op": "act", "activation": rng.choice(ACTIVATIONS), "output": rng.random() < 0.4,
+            "seed": rng.randrange(1 << 30)}
 
 
 def latent_step(rng: random.Random, name: str, inplace: bool) -> dict:
@@ -1292,6 +1363,8 @@ def gen_case(rng: random.Random, tier: str, kind: str | None = None, fam: str | 
             case["chain"].append({"op": "clone"})
         elif r < 0.22 or not methods:
             case["chain"].append({"op": "recreate", "seed": rng.randrange(1 << 30)})
+        elif r < 0.36:
+            case["chain"].append(act_step(rng))
         else:
             name = rng.choice(methods)
             if name.endswith("latent_node") and rng.random() < 0.6:
